@@ -86,3 +86,50 @@ for _n, _tiers in ((2, ('quick', 'thorough')), (3, ('quick', 'thorough'))):
            'rational functions of the entries of C, the data and the mean',
       out='as C04.e.formula; masked / undefined samples (C04.e.formula); n > 3; floating-point rounding of the inverse',
       assumptions=_XV_ASSUME, stubs=_XV_STUBS)
+
+# C04.a2  optimised vs plain covariance matrix: same request of the active ranks (Db, variables, neighbourhood ranks, flags), same shape,
+# same cells (incl. the variance of measurement error on the diagonal)
+_CM_TUS = ['src/Covariances/ACovAnisoList.cpp', 'src/Covariances/ACov.cpp', 'src/Covariances/CovAniso.cpp', 'src/Basic/VectorHelper.cpp',
+           'src/Basic/Utilities.cpp', 'src/Enum/Enums.cpp', 'src/Space/SpacePoint.cpp', 'src/Space/ASpaceObject.cpp', 'src/Matrix/AMatrix.cpp',
+           'src/Matrix/AMatrixDense.cpp', 'src/Matrix/MatrixRectangular.cpp', 'src/Matrix/AMatrixSquare.cpp', 'src/Matrix/MatrixSquareSymmetric.cpp',
+           'src/Matrix/MatrixSquareGeneral.cpp', 'src/Basic/AStringable.cpp', 'src/Basic/ASerializable.cpp']
+_CM_STUBS = ['Db::getMultipleRanksActive(ivars, nbgh, useSel, useVerr): records this, ivars, nbgh and the flags; returns one list per variable: the first '
+             'base(side, position) + !useSel + !useVerr entries of a symbolic table of sample ranks (side recognised by the length of nbgh)',
+             'ACov::_getActiveVariables(token): the first niv entries of {2,0} for the ivar0 token, the first njv entries of {1,2} for the jvar0 token',
+             'Db::hasLocVariable(ELoc::V): symbolic bit; Db::getColIdxByLocator(ELoc::V, ivar): symbolic table in [-1, 2]; Db::getValueByColIdx(iech, icol): symbolic table (integer values)',
+             'CovAniso::evalCor(p1, p2, ...) (plain side): weight(structure) x code(rank of p1, rank of p2)',
+             'SpacePoint::getDistance(pt) -> code(rank of pt, rank of this); CovAniso::_evalCorFromH(h) -> weight(structure) x h (optimised side: same value for the same pair)',
+             'CovAniso::_optimizationSetTarget(pt), CovAniso::optimizationSetTargetByIndex(iech): the projected target of THIS structure takes the rank of pt / iech',
+             'ACov::optimizationPreProcess(const Db*), optimizationPostProcess: empty (pairing: C10.b)', 'ACovAnisoList::_manage, updateCovByPoints: empty (no non-stationarity)',
+             'Db::getSampleAsSPInPlace: empty (the rank is set by the caller)', 'messerr: empty',
+             'ASpaceObject(const ASpace*), ~ASpaceObject, SpacePoint(const ASpace*), ~SpacePoint: no default-space cloning',
+             '__dynamic_cast (solver build only): identity on dense matrices']
+_CM_ASSUME = ['ACovAnisoList, CovAniso (2 structures), Db, CovCalcMode are raw storage with the real virtual tables; per structure: real 3x3 sill matrix with fixed distinct integer values, '
+              '_p1As = 4 raw points of rank 0..3, _isOptimPreProcessed = true',
+              'variable ranks are concrete ({2,0} / {1,2}); sample ranks symbolic in [0,3]; neighbourhood rank vectors arbitrary ints (forwarded only)',
+              'EOperator items get their enum values in the solver build (static constructors are not run)',
+              'covariance code is integer valued: every sum and product is exact in IEEE as well']
+K('C04.a2.sym', property='C04', engine='symex', harness='C04/covmat.cpp', entries=['k_sym'], tus=_CM_TUS,
+  defines={'all': {'VF_NV': 1, 'VF_NE': 1}},
+  bounds={'quick': '0..2 active variables, 0..2 valid samples per variable independently (heterotopy), one more sample per unset flag; 2 basic structures; mode null or all-active with arbitrary unitary flag; '
+                   'measurement-error column present / absent per variable, arbitrary integer variances in [-50,50]'},
+  timeout_ms={'quick': 60000, 'thorough': 600000}, validate={'quick': 10, 'thorough': 30}, validate_doubles='int',
+  what='ACovAnisoList::evalCovMatrixSymmetricOptim (+ CovAniso::evalOptimInPlace, ACovAnisoList::optimizationSetTargetByIndex) against ACov::evalCovMatrixSymmetric (+ ACovAnisoList::eval, '
+       'CovAniso::eval, getSill), both followed by ACov::_updateCovMatrixSymmetricVerr, on the same inputs: same request Db::getMultipleRanksActive(ivars, nbgh, useSel, useVerr), same shape, '
+       'same cells: the variance of measurement error lands on the same diagonal cells',
+  out='covariance values themselves (projection of the points, Tensor products, _evalCorFromH); what getMultipleRanksActive selects (C05); non-stationary models; mode selecting structures (C04.a2.sel)',
+  assumptions=_CM_ASSUME, stubs=_CM_STUBS)
+K('C04.a2.rect', property='C04', engine='symex', harness='C04/covmat.cpp', entries=['k_rect'], tus=_CM_TUS,
+  defines={'all': {'VF_NV': 2, 'VF_NE': 2}},
+  bounds={'quick': '0..2 active variables on each side, 0..2 valid samples (second variable one less on side 1, first variable one less on side 2), one more per unset flag; db2 null or a second Db; '
+                   '2 basic structures; mode null or all-active with arbitrary unitary flag'},
+  timeout_ms={'quick': 60000, 'thorough': 600000}, validate={'quick': 6, 'thorough': 30}, validate_doubles='int',
+  what='ACovAnisoList::evalCovMatrixOptim (+ CovAniso::evalOptimInPlace, ACov::optimizationSetTarget, ACovAnisoList::_optimizationSetTarget) against ACov::evalCovMatrix (+ ACovAnisoList::eval, '
+       'CovAniso::eval, getSill) on the same inputs: same requests Db::getMultipleRanksActive on both sides (Db, variables, neighbourhood ranks, flags), same shape, same cells',
+  out='as C04.a2.sym', assumptions=_CM_ASSUME, stubs=_CM_STUBS)
+K('C04.a2.sel', property='C04', engine='symex', harness='C04/covmat.cpp', entries=['k_sym_sel', 'k_rect_sel'], tus=_CM_TUS,
+  defines={'all': {'VF_NV': 2, 'VF_NE': 1}},
+  bounds={'quick': 'as C04.a2.sym / C04.a2.rect with at most 1 valid sample per variable; mode = CovCalcMode with allActiveCov false and the active list {0} or {1} (setActiveCovListFromOne)'},
+  timeout_ms={'quick': 60000, 'thorough': 600000}, validate={'quick': 6, 'thorough': 30}, validate_doubles='int',
+  what='same pairs of functions under a CovCalcMode that selects one basic structure: the optimised matrix must be the sum over the selected structures only, as ACovAnisoList::eval computes',
+  out='as C04.a2.sym', assumptions=_CM_ASSUME, stubs=_CM_STUBS)
